@@ -1,8 +1,12 @@
 import NiftyVerif.Core.Proto
 import NiftyVerif.Gen.ShareRange
-open Lean NiftyVerif.Proto NiftyVerif.Gen
+import NiftyVerif.Model.Distributed
+open Lean NiftyVerif.Proto NiftyVerif.Gen NiftyVerif.Distributed
 
-/-- ops: {"op":"shareRange","n":..,"p":..,"r":..} -> {"lo":..,"hi":..}; p = 0 is what Python rejects -/
+/-- ops:
+  {"op":"shareRange","n":..,"p":..,"r":..} -> {"lo":..,"hi":..}; p = 0 is what Python rejects
+  {"op":"localSamples","n":nSamples,"mirror":b,"p":p} -> per task: global indices, neg flags, seed index of the `y`
+       actually used (draw := identity on seed indices), and `_compute_local_indices` from the local counts -/
 def handle (j : Json) : Json :=
   match fStr? j "op" with
   | some "shareRange" =>
@@ -11,6 +15,30 @@ def handle (j : Json) : Json :=
       if p == 0 then jErr "ZeroDivisionError" else
       let (lo, hi) := shareRange n p r
       jObj [("lo", jNat lo), ("hi", jNat hi)]
+    | _, _, _ => jErr "bad-args"
+  | some "localSamples" =>
+    match fNat? j "n", fBool? j "mirror", fNat? j "p" with
+    | some n, some mirror, some p =>
+      if p == 0 then jErr "ZeroDivisionError" else
+      let ranks := List.range p
+      let loc := fun r => localSamples (fun s => s) mirror n p r
+      let counts := ranks.map (fun r => (loc r).length)
+      jObj [("indices", jList (fun r => jNats (localIndices (nWork mirror n) p r)) ranks),
+            ("neg", jList (fun r => Json.arr ((loc r).map (fun x => Json.bool x.2)).toArray) ranks),
+            ("seed", jList (fun r => jNats ((loc r).map (·.1))) ranks),
+            ("computed", jList (fun r => jNats (computeLocalIndices counts r)) ranks)]
+    | _, _, _ => jErr "bad-args"
+  | some "sync" =>
+    -- {"op":"sync","modes":[0|1,..] (0 = MAP, 1 = sampled),"p":tasks,"rootkeeps":bool} -> do all sync checks pass?
+    match fNatList? j "modes", fNat? j "p", fBool? j "rootkeeps" with
+    | some modes, some p, some rk =>
+      if p == 0 then jErr "bad-args" else
+      let ms := modes.map (fun m => if m == 0 then Mode.map else Mode.sampled)
+      let st : RankSt Nat Nat := ⟨⟨5, .fresh⟩, 0⟩
+      let w : World Nat Nat := ⟨st, List.replicate (p - 1) st⟩
+      let ok := if rk then checksPass bcastRootKeeps (· + 1) (· * 2) (· + 1) ms w
+                else checksPass bcastCopy (· + 1) (· * 2) (· + 1) ms w
+      jObj [("pass", Json.bool ok)]
     | _, _, _ => jErr "bad-args"
   | _ => jErr "bad-op"
 
